@@ -75,9 +75,6 @@ Proof.
   apply Cexp_i.
 Qed.
 
-Lemma RtoC_real_eq (z : C) x : fst z = x -> snd z = 0 -> z = RtoC x.
-Proof. intros H1 H2. apply Ceq; simpl; assumption. Qed.
-
 Lemma uprim_entries th :
   mden th uprim 0 0 = Cmult (cis (- (th 3%nat + th 0%nat))) (RtoC (cos (th 2%nat))) /\
   mden th uprim 0 1 = Cmult (cis (- (th 3%nat + th 1%nat))) (RtoC (sin (th 2%nat))) /\
@@ -288,3 +285,34 @@ Proof.
   rewrite (param_sound method Pm P HP Hok i j Hi Hj). apply uprim_is_U; assumption.
 Qed.
 End Euler.
+
+(* ---- statements used by Props/C17.v ---- *)
+(* specification of the external numeric functions *)
+Definition phase_spec (cphase : C -> R) : Prop := forall z : C, z = Cmult (RtoC (Cmod z)) (cis (cphase z)).
+Definition sqrt_spec (csqrt : C -> C) : Prop := forall z : C, Cmult (csqrt z) (csqrt z) = z.
+Definition atan2_spec (atan2 : R -> R -> R) : Prop := forall y x : R, (0 < x * x + y * y)%R ->
+  cos (atan2 y x) = (x / sqrt (x * x + y * y))%R /\ sin (atan2 y x) = (y / sqrt (x * x + y * y))%R.
+
+(* for every unitary U: the ordered product of the gates the method returns, evaluated at the angles the code extracts
+   from U, is U - entry by entry, global phase included *)
+Definition exact_for (method : string) : Prop :=
+  forall cphase csqrt atan2, phase_spec cphase -> sqrt_spec csqrt -> atan2_spec atan2 ->
+  forall U, unitary2 U ->
+  exists P, method_product method = Some P /\
+    forall i j, (i < 2)%nat -> (j < 2)%nat -> mden (angles cphase csqrt atan2 U) P i j = entry U i j.
+
+Lemma param_ok_some method : param_ok method = true -> exists P, method_product method = Some P.
+Proof. unfold param_ok. destruct (method_product method) as [P|]; [eauto| discriminate]. Qed.
+
+Lemma exact_of_param_ok method : param_ok method = true -> exact_for method.
+Proof.
+  intros Hok f s a Hf Hs Ha U HU. destruct (param_ok_some method Hok) as [P E]. exists P. split; [exact E|].
+  exact (method_exact f s a Hf Hs Ha U HU method P E Hok).
+Qed.
+
+Lemma zyz_exact_l : exact_for "ZYZ". Proof. exact (exact_of_param_ok _ param_ok_zyz). Qed.
+Lemma zxz_exact_l : exact_for "ZXZ". Proof. exact (exact_of_param_ok _ param_ok_zxz). Qed.
+Lemma zyz_paulix_exact_l : exact_for "ZYZ_PauliX". Proof. exact (exact_of_param_ok _ param_ok_zyz_paulix). Qed.
+
+Lemma methods_three : map fst sq_methods = ["ZYZ"; "ZXZ"; "ZYZ_PauliX"]%string.
+Proof. reflexivity. Qed.
